@@ -90,3 +90,9 @@ package planner
 //@ props C07
 //@ modifies-assumed entries(map[string]interface{})
 //@ end
+
+//@ commute (ScrubFields).Clean loop 0: undecided: cleaning different paths interacts through the pruning of empty parents; planned as a bounded stand-in, not decided here
+//@ commute (ScrubFields).MarshalJSON loop 0: assumed: test/debug helper; keys "path#type" are distinct for distinct (path, type) unless names contain '#'
+//@ commute (ScrubFields).MarshalJSON loop 1: assumed: as loop 0
+//@ commute (ScrubFields).clean loop 0: finding: `for typename, fields := range fields { ...; break }` applies the first entry when the payload has no __typename key
+//@ commute createQueryPlanSteps loop 0: assumed: one plan step per location (bag); extractSelectionSet writes only copies it makes and the child steps it creates; consumers group steps by URL and merge disjoint response keys
